@@ -6,8 +6,8 @@ from checks.pipeline import Scn, run_batch, finish
 from checks.pipeline import replay as _replay
 
 K = 15
-TRACE = ('Bitrate_Trace.tla', 'Bitrate_Trace.cfg')
-CHECKER = 'java -cp tla2tools.jar tlc2.TLC -workers 1 -config Bitrate_Trace.cfg Bitrate_Trace.tla (TRACE=<ndjson>); design level: Bitrate_MC.tla with Bitrate_MC_{a,b,c}.cfg'
+TRACE = ('Enc_Trace.tla', 'Enc_Trace.cfg')
+CHECKER = 'java -cp tla2tools.jar tlc2.TLC -workers 1 -config Enc_Trace.cfg Enc_Trace.tla (TRACE=<ndjson>); design level: Bitrate_MC.tla with Bitrate_MC_{a,b,c}.cfg'
 
 def _cfg(name, kk, maxsz, maxlen, gen, pset, invs, view=True):
     p = os.path.join(vlib.SPEC, name)
